@@ -2,7 +2,7 @@
    the same observation computed from the model, and the comparison evaluated by
    vm_compute on the cases the harness wrote. *)
 From Errors Require Import Model.
-From Coq Require Import PeanoNat.
+From Coq Require Import PeanoNat NArith.
 
 Definition mkc n i f m to te fa : core :=
   {| cname := n; cid := i; cfield := f; cmsg := m; ctimeout := to; ctemporary := te; cfault := fa |}.
@@ -30,14 +30,14 @@ Proof.
     try (apply list_eq_dec; apply Nat.eq_dec); try (apply list_eq_dec; apply core_eq_dec).
 Defined.
 
-Definition mismatches (cs : list (nat * tree * obs)) : list nat :=
+Definition mismatches (cs : list (N * tree * obs)) : list N :=
   flat_map (fun c => match c with (i, t, o) =>
      if obs_eq_dec (obs_of_val (merge_tree t)) o then [] else [i] end) cs.
 
 Definition code_eq_dec (a b : grpc_code) : {a = b} + {a <> b}.
 Proof. decide equality. Defined.
 
-Definition status_mismatches (cs : list (nat * val * nat * grpc_code * core)) : list nat :=
+Definition status_mismatches (cs : list (N * val * nat * grpc_code * core)) : list N :=
   flat_map (fun c => match c with (i, v, st, code, back) =>
      let okst := match response_core v with Some c => Nat.eqb (http_status c) st | None => false end in
      let okcode := if code_eq_dec (grpc_code_of v) code then true else false in
